@@ -10,6 +10,11 @@ Histories (all enumerated, nothing sampled):
   pairs     every ordered pair of assignments (p1,v1),(p2,v2) on the same object over the reduced alphabet
             (same property: last wins; same group: only the last one is held to its value; different
             groups: both read their assigned values)
+  points    ordered pairs (both orders) across different points of one series (data label, its font, marker,
+            format.line of points 0/1/2): the per-point c:dLbl / c:dPt elements are kept in idx order
+  stored    the same singles/pairs on the 'bench-pp' variant, where a few objects are harness-rewritten (bare
+  forms     lxml) into the alternative forms PowerPoint writes (edge-mode legend layout, pre-existing c:dLbl /
+            c:dPt of a later point, schemeClr+lumMod, sysClr, normAutofit, spcPct "90%", placeholder a:xfrm)
   thorough  + ordered pairs across the objects of CROSS_OBJECT_GROUPS (shape x its fill x its line; text
             frame x paragraph x run font), + ordered triples within the text objects, + larger reduced
             alphabets, + more corpus decks
@@ -490,13 +495,16 @@ def pairs(thorough):
     return cases
 
 
-def cross_pairs():
+def cross_pairs(groups, thorough=False):
     cases = []
-    for grp in cat.CROSS_OBJECT_GROUPS:
+    for grp in groups:
+        decks = {cat.kind(k).deck for k in grp}
+        if len(decks) != 1:
+            raise HarnessError("cross-object group %r spans decks %r" % (grp, decks))
         for ka, kb in itertools.permutations(grp, 2):
-            for a in _reduced(cat.kind(ka), False):
-                for b in _reduced(cat.kind(kb), False):
-                    cases.append({"t": "seq", "deck": "bench", "steps": [list(a), list(b)]})
+            for a in _reduced(cat.kind(ka), thorough):
+                for b in _reduced(cat.kind(kb), thorough):
+                    cases.append({"t": "seq", "deck": cat.kind(ka).deck, "steps": [list(a), list(b)]})
     return cases
 
 
@@ -580,7 +588,7 @@ def run(ctx):
     global _SUPPRESS
     thorough = ctx.thorough
     _preflight(ctx)
-    for d in ("bench", "bench-nosldsz"):
+    for d in sorted({K.deck for K in cat.kinds()}):
         _deck_bytes(d)
 
     # phase 1: single assignments (+ None-removal), bench then corpus
@@ -605,8 +613,11 @@ def run(ctx):
     if len(p2) != exp_pairs:
         raise HarnessError("pair enumeration %d != closed form %d" % (len(p2), exp_pairs))
     ctx.extra["pair_histories"] = len(p2)
+    cq = cross_pairs(cat.CROSS_OBJECT_GROUPS_QUICK, thorough)
+    ctx.extra["cross_point_pair_histories"] = len(cq)
+    p2 = p2 + cq
     if thorough:
-        cp, tr = cross_pairs(), triples()
+        cp, tr = cross_pairs(cat.CROSS_OBJECT_GROUPS), triples()
         ctx.extra["cross_object_pair_histories"] = len(cp)
         ctx.extra["triple_histories"] = len(tr)
         p2 = p2 + cp + tr
